@@ -38,6 +38,11 @@ pub fn verif_seed() -> u64 {
     }
 }
 
+thread_local! {
+    /// development aid: print the digest input of the current thread (one run of a batch)
+    pub static LOGDUMP_THREAD: std::cell::Cell<bool> = const { std::cell::Cell::new(false) };
+}
+
 /// FNV-1a helper used for log digests and signatures (never std's randomised hasher).
 #[derive(Clone, Copy)]
 pub struct Fnv(pub u64);
@@ -58,6 +63,11 @@ impl Fnv {
         self
     }
     pub fn str(&mut self, s: &str) -> &mut Self {
+        // development aid: VERIF_LOGDUMP=1 prints every string fed into a digest (use with `dbsim one`)
+        static DUMP: std::sync::OnceLock<bool> = std::sync::OnceLock::new();
+        if *DUMP.get_or_init(|| std::env::var_os("VERIF_LOGDUMP").is_some()) || LOGDUMP_THREAD.with(|c| c.get()) {
+            eprintln!("LOG {}", s);
+        }
         self.bytes(s.as_bytes());
         self.bytes(&[0xff])
     }
